@@ -113,7 +113,7 @@ impl Prop for C11 {
         "C11"
     }
     fn cases(&self, tier: Tier) -> u64 {
-        tier.pick(200_000, 3_000_000)
+        tier.pick(200_000, 10_000_000)
     }
     fn strategy(&self, _tier: Tier) -> BoxedStrategy<Case> {
         let second = prop_oneof![
